@@ -1,16 +1,18 @@
 // c10: engine for property C10 (VM registries under concurrency).
-//   c10 walk <repo>            print the regenerated lock table (Coq) for <repo>/runtime/vm.go
-//   c10 walk <repo> <dir> <Type> <file.go> [ctor...]   the same for another struct (C09: std/channel Channel channel.go Construct)
-//   c10 seq                    stdin: sequential op histories (JSON lines) -> results (tie with the sequential spec)
-//   c10 stress                 stdin: stress configurations (JSON lines); each runs in a CHILD process
-//                              (`c10 child`), so `fatal error: concurrent map writes` and race-detector
-//                              exits are attributed to the case
-//   c10 child                  stdin: one configuration; stdout: recorded concurrent history
+//
+//	c10 walk <repo>            print the regenerated lock table (Coq) for <repo>/runtime/vm.go
+//	c10 walk <repo> <dir> <Type> <file.go> [ctor...]   the same for another struct (C09: std/channel Channel channel.go Construct)
+//	c10 seq                    stdin: sequential op histories (JSON lines) -> results (tie with the sequential spec)
+//	c10 stress                 stdin: stress configurations (JSON lines); each runs in a CHILD process
+//	                           (`c10 child`), so `fatal error: concurrent map writes` and race-detector
+//	                           exits are attributed to the case
+//	c10 child                  stdin: one configuration; stdout: recorded concurrent history
 package main
 
 import (
 	"fmt"
 	"os"
+	"strings"
 )
 
 func main() {
@@ -27,8 +29,17 @@ func main() {
 		tg := target{dir: "runtime", typ: "VM", file: "vm.go", ctors: map[string]bool{}}
 		if len(os.Args) >= 6 {
 			// c10 walk <repo> <dir> <Type> <file.go> [constructor methods...]
-			tg = target{dir: os.Args[3], typ: os.Args[4], file: os.Args[5], ctors: map[string]bool{}}
+			// c10 walk <repo> <dir> <Type> <file.go> [constructor methods... | deep=<field>...]
+			tg = target{dir: os.Args[3], typ: os.Args[4], file: os.Args[5], ctors: map[string]bool{}, deep: map[string]bool{}}
 			for _, c := range os.Args[6:] {
+				if c == "entries=exported" {
+					tg.exportedOnly = true
+					continue
+				}
+				if strings.HasPrefix(c, "deep=") {
+					tg.deep[strings.TrimPrefix(c, "deep=")] = true
+					continue
+				}
 				tg.ctors[c] = true
 			}
 		}
